@@ -84,7 +84,7 @@ fn triple_case<P: G>(cfg: Cfg, seeded: bool, tier: Tier) -> Box<dyn Case> {
         let wit = base_witness(&cfg, seeded);
         let built = build_cached::<P>(&cfg, &wit).honest();
         let ctx = CTX_A;
-        let proof = lib_prove(&built, &ctx, &mut HRng::chacha(21)).honest();
+        let proof = lib_prove_honest(&built, &ctx, &mut HRng::chacha(21));
         // the base triple is accepted
         for mode in VMODES {
             let obs = verify_observed_one(&built.statement, &proof, &ctx, mode);
@@ -117,7 +117,7 @@ fn triple_case<P: G>(cfg: Cfg, seeded: bool, tier: Tier) -> Box<dyn Case> {
         let comp_cfg = Cfg::new(cfg.n, 1, 1, cfg.d);
         let comp_wit = Wit::default_for(&comp_cfg);
         let comp = build_cached::<P>(&comp_cfg, &comp_wit).honest();
-        let comp_proof = lib_prove(&comp, &CTX_A, &mut HRng::chacha(23)).honest();
+        let comp_proof = lib_prove_honest(&comp, &CTX_A, &mut HRng::chacha(23));
         // in-batch contexts presuppose that the two unaltered triples verify together in either order (C03's business)
         let batch_baseline_ok = [true, false].iter().all(|first| {
             let (sts, proofs) = if *first {
@@ -311,14 +311,14 @@ fn pair_case<P: G>(cfg: Cfg) -> Box<dyn Case> {
         let mut res = CaseResult::new("explored");
         let wit = base_witness(&cfg, false);
         let built = build_cached::<P>(&cfg, &wit).honest();
-        let proof = lib_prove(&built, &CTX_A, &mut HRng::chacha(22)).honest();
+        let proof = lib_prove_honest(&built, &CTX_A, &mut HRng::chacha(22));
         let bytes = P::to_bytes(&proof);
         let h = built.params.h_base().clone();
         let rp = match refbp::ref_decode(&bytes) {
             Some(p) => p,
             None => return res,
         };
-        let menu: Vec<_> = mutate::menu(&rp, false).into_iter().filter(|m| !matches!(m, mutate::Mut::ExtTag(_) | mutate::Mut::DropRound | mutate::Mut::DupRound)).collect();
+        let menu: Vec<_> = mutate::menu(&rp, false).into_iter().filter(|m| !matches!(m, mutate::Mut::ExtTag(_) | mutate::Mut::DropRound | mutate::Mut::DupRound | mutate::Mut::AppendRounds(_))).collect();
         for (i, m1) in menu.iter().enumerate() {
             let b1 = match mutate::apply::<P>(&rp, m1, &h) {
                 Some(b) => b,
@@ -358,7 +358,7 @@ fn long_batch_case<P: G>() -> Box<dyn Case> {
             wit.blindings[0][0] = blinding(4000 + pos, 0);
             let built = build_cached::<P>(&cfg, &wit).honest();
             let ctx = contexts()[pos % 6];
-            proofs.push(lib_prove(&built, &ctx, &mut HRng::chacha(pos as u64)).honest());
+            proofs.push(lib_prove_honest(&built, &ctx, &mut HRng::chacha(pos as u64)));
             sts.push(built.statement.clone());
             ctxs.push(ctx);
             builts.push(built);
